@@ -577,6 +577,34 @@ def rule_c12_structure(repo, res):
                                         f"{cls}.{m} writes a statement delimiter outside `if self.end_delimiter:`: dialects "
                                         "without statement delimiters (ODL, PDS3, ISIS) get them", where=f"pvl/encoder.py:{n.lineno}"))
     res.floor("uses of grammar.delimiters in the encoders", n_delims, 1)
+    # DELIM-ONLY: whether a statement gets its delimiter depends on end_delimiter alone -- a use of the delimiter that
+    # also lies under another test (aggregation_end, the kind of value, ...) whose other arm writes none leaves some
+    # statements of a delimiter-writing encoder without it
+    for cls in encoder_classes(repo):
+        for m, fn in repo.classes[cls].methods.items():
+            for n in ast.walk(fn):
+                if not (isinstance(n, ast.Attribute) and norm(n) == "self.grammar.delimiters"):
+                    continue
+                x = n
+                extra = None
+                while x is not None and x is not fn:
+                    p = getattr(x, "_parent", None)
+                    if isinstance(p, (ast.If, ast.IfExp)) and x is not p.test and "end_delimiter" not in norm(p.test):
+                        other = (p.orelse if x in p.body else p.body) if isinstance(p, ast.If) else \
+                            ([p.orelse] if x is p.body else [p.body])
+                        writes = any(isinstance(y, ast.Attribute) and norm(y) == "self.grammar.delimiters"
+                                     for st in other for y in ast.walk(st))
+                        raises = bool(other) and all(isinstance(st, ast.Raise) for st in other[-1:]) if isinstance(p, ast.If) else False
+                        if not writes and not raises:
+                            extra = p
+                            break
+                    x = p
+                res.oblige("DELIM-ONLY", f"{cls}.{m}: `{norm(getattr(n, '_parent', n), 50)}` depends on end_delimiter only", ok=extra is None)
+                if extra is not None:
+                    res.add(Finding("DELIM-ONLY", f"{cls}.{m}", f"delimiter under `{norm(extra.test, 50)}`",
+                                    f"{cls}.{m} writes the statement delimiter only when `{norm(extra.test, 60)}` holds as well; on "
+                                    "the other arm the statement ends without it although end_delimiter is set",
+                                    where=f"pvl/encoder.py:{n.lineno}"))
     # block keywords
     fn = repo.full("PVLEncoder", "encode_aggregation_block")
     src = norm(fn, 8000)
